@@ -453,7 +453,7 @@ PROPS["C14"]["functions"] = PROPS["C14"]["functions"] + ["impl Clone / PartialEq
 PROPS["C14"]["assumptions"] = PROPS["C14"]["assumptions"] + ["Object-level check (MIR): Vec<Entry>'s ==, cmp and hash are modelled on the entry lists (std trusted); the object's index is compared structurally"]
 PROPS["C14"]["outside"] = ["nested arrays/objects beyond one slice level (Kani laws)", "objects of more than 4 entries", "Kani on non-empty heap objects (does not finish; replaced by the MIR-based object check)"]
 def CANONN(tier, level, cap):
-	what = "objects of <= 2 members with values from {t, {}, {k:t}, {k:t,k:f}, [{k:t,k:f}]} and arrays of <= 2 items from {t, {k:t,k:f}}" if level == 1 else \
+	what = "objects of <= 2 members with values from {t, {}, {k:t}, {k:t,k:f}, [{k:t,k:f}]} and arrays of <= 2 items from {t, {k:t,k:f}, [{k:t,k:f}]}" if level == 1 else \
 	       "the level-1 values plus objects of <= 2 members with a value among {k:{k:t,k:f}} (three levels) and {k:t,k:f,k:t}, and objects of 3 members with values from {t, {k:t}, {k:t,k:f}}"
 	h = H("obj::canonicalize_nested_l%d" % level, "mir", tier, cap,
 	      "Value::canonicalize_with and Object::canonicalize_with from MIR, recursively, on every value among %s; EVERY key at every depth is one symbolic character (equalities and UTF-16 order decided by z3). After the call: the value is unordered-equal to the original "
